@@ -163,4 +163,9 @@ def main():
 
 
 if __name__ == '__main__':
-  main()
+  import os as _os
+  sys_path_dir = _os.path.dirname(_os.path.abspath(__file__))
+  import sys as _sys
+  _sys.path.insert(0, sys_path_dir)
+  from _guard import run_guarded
+  run_guarded(main, _os.path.basename(__file__))
